@@ -44,10 +44,15 @@ class CaseResult:
     summary: Any = None
     key: Any = None          # what identifies the case for distinct-counting (default: the spec)
     inconclusive: bool = False
+    stop_search: bool = False   # a hang/timeout: record it, do not shrink (every replay would cost a full watchdog period)
 
 
 class PropertyViolation(AssertionError):
     pass
+
+
+class StopSearch(BaseException):
+    """Leaves a Hypothesis run at once (no shrinking): after a hang-type finding, or when the job's budget is used up."""
 
 
 class Known:
@@ -194,7 +199,8 @@ def hyp_settings(max_examples: int, shrink: bool = True, stateful_step_count: Op
 
 
 def run_hypothesis(rec: Recorder, engine: str, strategy, check: Callable[[Any], CaseResult], *,
-                   max_examples: int, seed: int, shrink: bool = True, rounds: int = 3) -> None:
+                   max_examples: int, seed: int, shrink: bool = True, rounds: int = 3,
+                   budget_s: Optional[float] = None) -> None:
     """Generate cases from `strategy`, decide each with `check`, record coverage in `rec`.
     Findings listed as open known findings are counted and skipped so that the search continues behind
     them. A new finding fails the Hypothesis test, is shrunk, and recorded as a violation; the search
@@ -204,21 +210,44 @@ def run_hypothesis(rec: Recorder, engine: str, strategy, check: Callable[[Any], 
     from hypothesis.errors import Flaky
 
     session_known: set[str] = set()
+    if budget_s is None:
+        budget_s = 150.0 if rec.tier == 'quick' else 3 * 3600.0
+    t_end = time.monotonic() + budget_s
     for rnd in range(rounds):
         state: dict[str, Any] = {'last': None}
 
         def body(spec):
+            if time.monotonic() > t_end:
+                raise StopSearch('budget')
             res = check(spec)
             rec.case(engine, spec, res)
             bad = rec.triage(engine, spec, res, session_known)
             if bad:
                 state['last'] = (spec, bad, res.summary)
+                if res.stop_search:
+                    raise StopSearch('hang')
                 raise PropertyViolation(bad[0].signature)
+            if res.stop_search:
+                state['hangs'] = state.get('hangs', 0) + 1
+                if state['hangs'] >= 3:
+                    rec.notes.append(f'{engine}: 3 cases hit the per-case watchdog; generation stopped (inconclusive for this property)')
+                    raise StopSearch('budget')
 
         test = hypothesis.seed(derive_seed(seed, engine, rnd))(
             hyp_settings(max_examples, shrink)(given(strategy)(body)))
         try:
             test()
+        except StopSearch as stop:
+            if str(stop) == 'budget':
+                rec.notes.append(f'{engine}: job budget of {budget_s:.0f}s reached after {rec.engines[engine]} cases; generation stopped early')
+                if state['last'] is not None:
+                    spec, bad, summary = state['last']
+                    rec.violation(engine, spec, bad, summary)
+                break
+            spec, bad, summary = state['last']
+            rec.violation(engine, spec, bad, summary)
+            session_known.update(f.signature for f in bad)
+            continue
         except PropertyViolation:
             spec, bad, summary = state['last']
             rec.violation(engine, spec, bad, summary)
